@@ -66,7 +66,7 @@ DepsOf(p) == CASE p = "P" -> <<"D">> [] p = "M" -> <<"P", "O">> [] OTHER -> <<>>
 SrcOf(p, e) == CASE p = "P" -> <<e.srcP, e.tag>>
                  [] p = "D" -> <<e.srcD>>
                  [] p = "O" -> <<e.srcO>>
-                 [] p = "RT" -> <<e.gover, e.plat>>
+                 [] p \in {"RT", "ABI"} -> <<e.gover, e.plat>>
                  [] OTHER -> <<0>>
 GoTool(e) == <<"compile", e.gover>>
 RECURSIVE Content(_, _)
@@ -87,6 +87,9 @@ HashWithStruct(sid, e, name) ==
   LET salt == IF e.seed = "none" \/ StructAlwaysGarble THEN AddGarbleToHash(sid, e) ELSE sid
   IN HashCustom(salt, e, name)
 RuntimeHash(e, s) == H(<<IF e.seed = "none" THEN GarbleActionID("RT", e) ELSE e.seed, s>>)
+(* the pclntab magic is compiled into internal/abi, so it is salted with that package's action ID *)
+(* (since the fix of F20; before: runtime's, which internal/abi does not depend on)              *)
+AbiHash(e, s) == H(<<IF e.seed = "none" THEN GarbleActionID("ABI", e) ELSE e.seed, s>>)
 
 (* ------------------------------------------------------------------ C12 *)
 Classes == {"scoped", "importpath", "field", "position", "asm", "magic", "entryoff"}
@@ -100,7 +103,7 @@ NameTerm(c, e) ==
     [] c = "field" -> HashWithStruct("S", e, "fld")
     [] c = "position" -> IF e.tiny THEN Absent ELSE HashWithPackage("P", e, <<"file.go", "offset">>)
     [] c = "asm" -> HashWithPackage("P", e, "nop.s")
-    [] c = "magic" -> RuntimeHash(e, "magic")
+    [] c = "magic" -> AbiHash(e, "magic")
     [] c = "entryoff" -> RuntimeHash(e, "entryOffKey")
 
 Flip(b) == ~b
